@@ -78,10 +78,15 @@ def rule_pipeline(ctx, rid='R1'):
                 g_meth = [pol for a, pol in p.guards if a == T.mkcmp('is', METHOD, T.CONST_NONE)]
                 good = v[0] == 'call' and T.call_name(v) == '_constructor' and T.call_receiver(v) == SELF and len(v[2]) == 2 and dict(v[3]).get('**') == ('attr', SELF, 'attrs') \
                     and g_raise == [False] and g_meth == [True]
+                unread = False
                 if good:
                     vals, newaxes = v[2]
                     base = strip_mut(vals)
                     fills = [e.a for e in p.calls('fill') if e.a[2][:1] == (FILL,)]
+                    if not (newaxes[0] == 'comp' and newaxes[3][0][1] == ('attr', SELF, 'axes') and newaxes[2][0] == 'ifexp'):
+                        # the constructor call, its guards and the metadata are as they must be; the list of new axes is assembled in another form than the one
+                        # comprehension this clause reads (a loop appending to a list, a helper per axis): not recognised, not wrong
+                        unread = True
                     good = bool(fills) and base[0] == 'call' and T.call_name(base) == '_maybe_cast_type' and base[2][1:2] == (FILL,) and \
                         newaxes[0] == 'comp' and newaxes[3][0][1] == ('attr', SELF, 'axes') and newaxes[2][0] == 'ifexp'
                     if good:
@@ -90,7 +95,10 @@ def rule_pipeline(ctx, rid='R1'):
                         good = c_ in (T.mkcmp('is', el, src_ax), T.mkcmp('==', ('attr', el, 'name'), ('attr', src_ax, 'name'))) and \
                             a_then[0] == 'call' and T.call_name(a_then) == 'Axis' and a_then[2][:2] == (newvals, ('attr', el, 'name')) and \
                             dict(a_then[3]).get('**') == ('attr', el, 'attrs') and a_else == ('call', ('attr', el, 'copy'), (), ())
-                if not good:
+                if not good and unread:
+                    ctx.undecide(rid, 'reindex_axis [%s], empty source axis: the axes of the all-missing result are assembled in a form the rule does not read (%s)' % (inst, T.show(newaxes)[:80]))
+                    ok = False
+                elif not good:
                     ctx.violated(rid, fi, 'empty source axis [%s]' % inst, 'with an empty source axis the result must be self._constructor(<array of the new shape filled with fill_value, '
                                  'widened by _maybe_cast_type>, [Axis(values, name, **attrs) for the reindexed axis, copies of the others], **self.attrs), only when raise_error is '
                                  'false and method is None', node=p.node)
